@@ -153,6 +153,7 @@ package fpgo
 //@   opt effects=trace
 //@   opt recv-nonnil=true
 //@   requires handlerSelf != nil
+//@   ensures every-received-function-run: tr_len == old(tr_len) + _received
 //@ func (HandlerDef).run loop 0
 //@   invariant serial: tr_len == old(tr_len) + _i && forall(k, 0, _i, tr_kind[old(tr_len)+k] == 1 && tr_fn[old(tr_len)+k] == _rx[k])
 
@@ -177,6 +178,7 @@ package fpgo
 //@   opt callbacks=effectful
 //@   opt effects=trace
 //@   requires actorSelf != nil && actorSelf.effect != nil
+//@   ensures every-received-message-processed: tr_len == old(tr_len) + _received
 //@ func (ActorDef).run loop 0
 //@   invariant serial: tr_len == old(tr_len) + _i && forall(k, 0, _i, tr_kind[old(tr_len)+k] == 1 && tr_fn[old(tr_len)+k] == actorSelf.effect && tr_arg[old(tr_len)+k] == boxed(actorSelf))
 
@@ -305,3 +307,139 @@ package fpgo
 //@   opt effects=trace
 //@   requires next != nil && fn != nil && PUB_WF(next) && (next.subOn != nil ==> !next.subOn.isClosed)
 //@   ensures mapped-first: tr_len >= old(tr_len)+1 && tr_kind[old(tr_len)] == 1 && tr_fn[old(tr_len)] == fn && tr_arg[old(tr_len)] == in
+
+// ===================================================================================================
+// C13 - Ask/Reply: the per-goroutine facts.  Every request object carries its own reply channel (fresh, with room for one
+// late reply when made by AskNewGenerics); asking is exactly one Send of the request object itself to the target; Reply is
+// exactly one send of the response on that request's own channel; AskOnce returns exactly the value received on its own
+// channel and closes it only after that; AskOnceWithTimeout returns (that value, nil) after receiving on its own channel (then
+// closes it), or (zero, ErrActorAskTimeout) WITHOUT closing anything, so that a reply produced later finds the channel open
+// and - for channels made by AskNewGenerics - with room, i.e. the late Reply neither panics nor blocks.
+// Events: kind 2 = call through the ActorHandle interface, 5 = send, 6 = close, 7 = receive (tr_obj = the channel).
+//@ func AskNewByOptionsGenerics
+//@   prop C13
+//@   ensures made: r0 != nil && fresh(r0) && r0.ch == ioCh && r0.Message == message
+//@ func AskNewGenerics
+//@   prop C13
+//@   ensures own-channel: r0 != nil && fresh(r0) && r0.ch != nil && fresh(r0.ch) && chancap(r0.ch) >= 1 && r0.Message == message
+
+//@ func (AskDef).AskChannel
+//@   prop C13
+//@   opt callbacks=effectful
+//@   opt effects=trace
+//@   opt dispatch=ActorHandle:off
+//@   requires askSelf != nil && !untyped(target)
+//@   ensures one-send-of-this-request: tr_len == old(tr_len)+1 && tr_kind[old(tr_len)] == 2 && tr_recv[old(tr_len)] == target && tr_fn[old(tr_len)] == method("ActorHandle.Send") && tr_arg[old(tr_len)] == boxed(askSelf)
+//@   ensures own-channel: r0 == askSelf.ch
+
+//@ func (AskDef).Reply
+//@   prop C13
+//@   opt callbacks=effectful
+//@   opt effects=trace
+//@   requires askSelf != nil
+//@   ensures one-reply-on-own-channel: tr_len == old(tr_len)+1 && tr_kind[old(tr_len)] == 5 && tr_obj[old(tr_len)] == askSelf.ch && tr_arg[old(tr_len)] == response
+
+//@ func (AskDef).AskOnce
+//@   prop C13
+//@   opt callbacks=effectful
+//@   opt effects=trace
+//@   opt dispatch=ActorHandle:off
+//@   requires askSelf != nil && askSelf.ch != nil && !untyped(target)
+//@   ensures asked: tr_len == old(tr_len)+3 && tr_kind[old(tr_len)] == 2 && tr_recv[old(tr_len)] == target && tr_fn[old(tr_len)] == method("ActorHandle.Send") && tr_arg[old(tr_len)] == boxed(askSelf)
+//@   ensures own-answer: tr_kind[old(tr_len)+1] == 7 && tr_obj[old(tr_len)+1] == askSelf.ch && r0 == tr_res[old(tr_len)+1]
+//@   ensures closed-after-the-answer: tr_kind[old(tr_len)+2] == 6 && tr_obj[old(tr_len)+2] == askSelf.ch
+
+//@ func (AskDef).AskOnceWithTimeout
+//@   prop C13
+//@   opt callbacks=effectful
+//@   opt effects=trace
+//@   opt dispatch=ActorHandle:off
+//@   requires askSelf != nil && askSelf.ch != nil && !untyped(target)
+//@   ensures asked: tr_len >= old(tr_len)+2 && tr_kind[old(tr_len)] == 2 && tr_recv[old(tr_len)] == target && tr_fn[old(tr_len)] == method("ActorHandle.Send") && tr_arg[old(tr_len)] == boxed(askSelf)
+//@   ensures answered: r1 == nil ==> tr_len == old(tr_len)+3 && tr_kind[old(tr_len)+1] == 7 && tr_obj[old(tr_len)+1] == askSelf.ch && r0 == tr_res[old(tr_len)+1] && tr_kind[old(tr_len)+2] == 6 && tr_obj[old(tr_len)+2] == askSelf.ch
+//@   ensures timed-out-clean: r1 != nil ==> r1 == ErrActorAskTimeout && r0 == zeroof(r0) && tr_len == old(tr_len)+2 && forall(k, old(tr_len), tr_len, tr_kind[k] != 6)
+
+// ===================================================================================================
+// C14 - coroutines: the per-goroutine routing facts.  A request is a fresh CorOp{cor: the requester, val: the value sent};
+// YieldFrom/StartWithVal put exactly one request into the TARGET's opCh (under the target's closedM, when it is not done);
+// YieldRef takes exactly one request from ITS OWN opCh, answers on THE REQUESTER's resultCh (under the requester's
+// closedM, when that one is not done) with exactly the value it yields, and returns exactly the request's value; YieldFrom
+// then returns what it receives on ITS OWN resultCh.  Start spawns exactly one goroutine running effect() then close();
+// close sets the flag and closes both channels under closedM.  (doCloseSafe is inlined into its callers.)
+// Events: 4 = go, 5 = send, 6 = close, 7 = receive (tr_obj = channel, tr_arg = value sent, tr_res = value received).
+//@ func CorNewGenerics
+//@   prop C14
+//@   ensures made: r0 != nil && fresh(r0) && r0.effect == effect && r0.opCh != nil && fresh(r0.opCh) && r0.resultCh != nil && fresh(r0.resultCh) && chancap(r0.opCh) == 5 && chancap(r0.resultCh) == 5 && !r0.isStarted && !r0.isClosed
+//@ func (CorDef).IsDone
+//@   prop C14
+//@   requires corSelf != nil
+//@   ensures def: r0 == corSelf.isClosed
+//@ func (CorDef).IsStarted
+//@   prop C14
+//@   requires corSelf != nil
+//@   ensures def: r0 == corSelf.isStarted
+
+//@ func (CorDef).receive
+//@   prop C14
+//@   opt callbacks=effectful
+//@   opt effects=trace
+//@   opt lockguard=opCh:closedM
+//@   requires corSelf != nil
+//@   ensures done-drops: old(corSelf.isClosed) || corSelf.opCh == nil ==> tr_len == old(tr_len)
+//@   ensures one-request: !old(corSelf.isClosed) && corSelf.opCh != nil ==> tr_len == old(tr_len)+1 && tr_kind[old(tr_len)] == 5 && tr_obj[old(tr_len)] == corSelf.opCh && asptr(tr_arg[old(tr_len)], CorOp) != nil && fresh(asptr(tr_arg[old(tr_len)], CorOp)) && asptr(tr_arg[old(tr_len)], CorOp).cor == cor && asptr(tr_arg[old(tr_len)], CorOp).val == in
+
+//@ func (CorDef).YieldRef
+//@   prop C14
+//@   opt callbacks=effectful
+//@   opt effects=trace
+//@   opt recv-nonnil=true
+//@   requires corSelf != nil
+//@   ensures done: old(corSelf.isClosed) ==> tr_len == old(tr_len) && r0 == zeroof(r0)
+//@   ensures takes-own-request: !old(corSelf.isClosed) ==> tr_len >= old(tr_len)+1 && tr_kind[old(tr_len)] == 7 && tr_obj[old(tr_len)] == corSelf.opCh && r0 == asptr(tr_res[old(tr_len)], CorOp).val
+//@   ensures answers-the-requester: !old(corSelf.isClosed) && asptr(tr_res[old(tr_len)], CorOp).cor != nil && !asptr(tr_res[old(tr_len)], CorOp).cor.isClosed ==> tr_len == old(tr_len)+2 && tr_kind[old(tr_len)+1] == 5 && tr_obj[old(tr_len)+1] == asptr(tr_res[old(tr_len)], CorOp).cor.resultCh && tr_arg[old(tr_len)+1] == out
+//@   ensures nobody-to-answer: !old(corSelf.isClosed) && (asptr(tr_res[old(tr_len)], CorOp).cor == nil || asptr(tr_res[old(tr_len)], CorOp).cor.isClosed) ==> tr_len == old(tr_len)+1
+
+//@ func (CorDef).YieldFrom
+//@   prop C14
+//@   opt callbacks=effectful
+//@   opt effects=trace
+//@   requires corSelf != nil && target != nil
+//@   ensures done: old(corSelf.isClosed) ==> tr_len == old(tr_len) && r0 == zeroof(r0)
+//@   ensures request-to-target: !old(corSelf.isClosed) && !old(target.isClosed) && target.opCh != nil ==> tr_len == old(tr_len)+2 && tr_kind[old(tr_len)] == 5 && tr_obj[old(tr_len)] == target.opCh && asptr(tr_arg[old(tr_len)], CorOp).cor == corSelf && asptr(tr_arg[old(tr_len)], CorOp).val == in
+//@   ensures own-answer: !old(corSelf.isClosed) ==> tr_kind[tr_len-1] == 7 && tr_obj[tr_len-1] == corSelf.resultCh && r0 == tr_res[tr_len-1]
+
+//@ func (CorDef).Start
+//@   prop C14
+//@   opt callbacks=effectful
+//@   opt effects=trace
+//@   modifies corSelf
+//@   requires corSelf != nil
+//@   ensures already: old(corSelf.isClosed) || old(corSelf.isStarted) ==> tr_len == old(tr_len) && corSelf.isStarted == old(corSelf.isStarted)
+//@   ensures started-once: !old(corSelf.isClosed) && !old(corSelf.isStarted) ==> corSelf.isStarted && tr_len == old(tr_len)+1 && tr_kind[old(tr_len)] == 4
+//@   ensures fields-kept: corSelf.effect == old(corSelf.effect) && corSelf.opCh == old(corSelf.opCh) && corSelf.resultCh == old(corSelf.resultCh) && corSelf.isClosed == old(corSelf.isClosed)
+//@ func (CorDef).Start lit 0
+//@   prop C14
+//@   opt callbacks=effectful
+//@   opt effects=trace
+//@   modifies corSelf
+//@   requires corSelf != nil && corSelf.effect != nil
+//@   ensures effect-then-close: tr_len >= old(tr_len)+1 && tr_kind[old(tr_len)] == 1 && tr_fn[old(tr_len)] == old(corSelf.effect) && corSelf.isClosed && forall(k, old(tr_len)+1, tr_len, tr_kind[k] == 6)
+
+//@ func (CorDef).StartWithVal
+//@   prop C14
+//@   opt callbacks=effectful
+//@   opt effects=trace
+//@   modifies corSelf
+//@   requires corSelf != nil && corSelf.opCh != nil
+//@   ensures already: old(corSelf.isClosed) || old(corSelf.isStarted) ==> tr_len == old(tr_len)
+//@   ensures value-first: !old(corSelf.isClosed) && !old(corSelf.isStarted) ==> tr_len == old(tr_len)+2 && tr_kind[old(tr_len)] == 5 && tr_obj[old(tr_len)] == corSelf.opCh && asptr(tr_arg[old(tr_len)], CorOp).cor == nil && asptr(tr_arg[old(tr_len)], CorOp).val == in && tr_kind[old(tr_len)+1] == 4 && corSelf.isStarted
+
+//@ func (CorDef).close
+//@   prop C14
+//@   opt callbacks=effectful
+//@   opt effects=trace
+//@   opt lockguard=opCh:closedM;resultCh:closedM
+//@   modifies corSelf
+//@   requires corSelf != nil
+//@   ensures closed: corSelf.isClosed && forall(k, old(tr_len), tr_len, tr_kind[k] == 6 && (tr_obj[k] == corSelf.resultCh || tr_obj[k] == corSelf.opCh)) && tr_len == old(tr_len) + ite(corSelf.resultCh != nil, 1, 0) + ite(corSelf.opCh != nil, 1, 0)
+//@   ensures fields-kept: corSelf.effect == old(corSelf.effect) && corSelf.opCh == old(corSelf.opCh) && corSelf.resultCh == old(corSelf.resultCh) && corSelf.isStarted == old(corSelf.isStarted)
